@@ -9,7 +9,8 @@ from ..env import ptn
 def snapshot(obj, is_mpo):
     dense = refs.dense_operator(obj.A) if is_mpo else refs.dense_state(obj.A)
     single = any(np.asarray(a).dtype in (np.float32, np.complex64) for a in obj.A)
-    return {'dense': dense, 'D': [len(q) for q in obj.qD], 'qD0': np.array(obj.qD[0], copy=True), 'qDL': np.array(obj.qD[-1], copy=True),
+    scale = float(np.prod([max(np.linalg.norm(np.asarray(a, dtype=complex)), 1e-300) for a in obj.A])) if len(obj.A) else 1.0
+    return {'scale': scale, 'dense': dense, 'D': [len(q) for q in obj.qD], 'qD0': np.array(obj.qD[0], copy=True), 'qDL': np.array(obj.qD[-1], copy=True),
             'qd': np.array(obj.qd, copy=True), 'single': single, 'A': [np.array(a, copy=True) for a in obj.A], 'qD': [np.array(q, copy=True) for q in obj.qD]}
 
 
@@ -19,17 +20,26 @@ def orth_post(ctx, old, obj, nrm, mode, is_mpo, in_situ=False):
     detail = {'mode': mode, 'A': old['A'], 'qd': old['qd'], 'qD': old['qD']}
     eps = 1e-4 if old['single'] else 1e-10
     n0 = float(np.linalg.norm(old['dense']))
+    # natural scale: product of the tensor norms. An object whose dense norm is at rounding level relative to it (exact cancellation
+    # between non-zero tensors) is numerically zero: only 'factor ~ 0, no exception' can be demanded there.
+    noise = 1e-13 * old['scale']
+    numerically_zero = 0 < n0 <= 100 * noise
+    if numerically_zero:
+        ctx.event('numerically_zero_object')
+        n0_eff = 0.0
+    else:
+        n0_eff = n0
     ok = isinstance(nrm, (int, float, np.floating, np.integer)) and not isinstance(nrm, (complex, np.complexfloating)) and np.isfinite(nrm)
     if not ctx.ok(f'{tag}.factor-real-finite', bool(ok), f'returned factor {nrm!r} is not a finite real number', detail, s):
         return
     nrm = float(nrm)
     ctx.ok(f'{tag}.factor-nonnegative', nrm >= 0, f'returned factor {nrm} < 0', detail, s)
-    ctx.close(f'{tag}.factor-equals-norm', abs(nrm - n0), eps * n0, f'factor {nrm} != norm {n0}', detail, s)
+    ctx.close(f'{tag}.factor-equals-norm', abs(nrm - n0), eps * n0 + 100 * noise, f'factor {nrm} != norm {n0}', detail, s)
     inv = refs.mpo_invariant(obj) if is_mpo else refs.mps_invariant(obj)
     if not ctx.ok(f'{tag}.block-sparse-after', inv is None, f'after orthonormalize: {inv}', detail, s):
         return
     new = refs.dense_operator(obj.A) if is_mpo else refs.dense_state(obj.A)
-    ctx.close(f'{tag}.factor-times-new-equals-old', np.linalg.norm(nrm * new - old['dense']), eps * n0, 'factor * new dense != original dense', detail, s)
+    ctx.close(f'{tag}.factor-times-new-equals-old', np.linalg.norm(nrm * new - old['dense']), eps * n0 + 100 * noise, 'factor * new dense != original dense', detail, s)
     L = len(obj.A)
     worst = 0.0
     for i, A in enumerate(obj.A):
@@ -39,7 +49,9 @@ def orth_post(ctx, old, obj, nrm, mode, is_mpo, in_situ=False):
             M = A.reshape(-1, A.shape[2]) if mode == 'left' else A.transpose(0, 2, 1).reshape(-1, A.shape[1])
         k = M.shape[1]
         worst = max(worst, float(np.linalg.norm(M.conj().T @ M - np.identity(k))) / max(1.0, np.sqrt(k)))
-    if n0 > 0:
+    if numerically_zero:
+        ctx.skip(f'{tag}.site-isometries')
+    elif n0 > 0:
         ctx.close(f'{tag}.site-isometries', worst, eps * 10, f'a site tensor is not an isometry in direction {mode}', detail, s)
         ctx.close(f'{tag}.unit-norm-after', abs(np.linalg.norm(new) - 1), eps * 10, 'norm after orthonormalize != 1 for a non-zero object', detail, s)
         ctx.ok(f'{tag}.boundary-charges-kept', np.array_equal(obj.qD[0], old['qD0']) and np.array_equal(obj.qD[-1], old['qDL']),
